@@ -171,7 +171,10 @@ def bexp(F, e, defs):
         if op == "<=":                        # a <= b == !(b < a)
             return ("not", ("atom", "%s<%s" % (b, a)))
         return ("atom", "%s<%s" % (a, b))
-    return ("atom", _subst_txt(F, e, defs))
+    txt = _subst_txt(F, e, defs)
+    if e.get("ty") not in (None, "bool") and k not in ("call",):
+        return ("not", ("atom", "0==" + txt))        # an integer used as a condition: x  ==  !(0 == x)
+    return ("atom", txt)
 
 
 def _atoms(b, out):
